@@ -1,6 +1,6 @@
 //go:build verif
 
-//verif:bounds more C11 program shapes, contents symbolic as in zz_verif_c11.go: name_forms (parent-prefix ^ and ^^ names inside Scope directives and inside Devices nested two deep; relative and absolute multi-segment names and Scope targets that run through two nested Devices; a method declared through such a path), call_opargs (two-argument method invoked before and after its declaration with an operator expression as an argument, and as an operand of an operator), while_if (While body with a nested If followed by further statements; If body ending in a TermArg at its package end)
+//verif:bounds more C11 program shapes, contents symbolic as in zz_verif_c11.go: name_forms (parent-prefix ^ and ^^ names inside Scope directives and inside Devices nested two deep; relative and absolute multi-segment names and Scope targets that run through two nested Devices; a method declared through such a path), late_device (a name referring into a Device that is declared later through an absolute path), call_opargs (two-argument method invoked before and after its declaration with an operator expression as an argument, and as an operand of an operator), while_if (While body with a nested If followed by further statements; If body ending in a TermArg at its package end)
 //verif:assumes shapes are enumerated (templates), contents are decided by the solver; error-message formatting stubbed; table = raw region of exactly header+program bytes
 package aml
 
@@ -138,6 +138,21 @@ func Verif_C11_name_forms() {
 		nodes = append(nodes, &vfN{op: pOpScope, prefix: append([]byte{'\\', 0x2e}, sb[:]...), name: d0, kids: []*vfN{vfByteName([]byte{'^'}, inSB)}})
 	}
 	vfRun(vfProgOf(nodes...))
+}
+
+// Scope(\_SB_) { Name(D2.L1, b) }   Device(\_SB_.D2) { Name(B2, b) }: a name that refers into a Device declared later
+// through an absolute path can only be placed after the Device itself has been relocated (an extra resolve pass).
+//verif:split 2
+func Verif_C11_late_device() {
+	vfNames = nil
+	sb := vfScopeName("_SB_")
+	d2 := vfNewName()
+	inSB := []vfName{sb}
+	inD2 := []vfName{sb, d2}
+	vfRun(vfProgOf(
+		&vfN{op: pOpScope, prefix: []byte{'\\'}, name: sb, kids: []*vfN{vfByteName(append([]byte{0x2e}, d2[:]...), inD2)}},
+		&vfN{op: pOpDevice, prefix: append([]byte{'\\', 0x2e}, sb[:]...), name: d2, expPath: inSB, kids: []*vfN{vfByteName(nil, inD2)}},
+	))
 }
 
 // shape expectations for executable code: the object of the given opcode at offset off has the statement object at
